@@ -58,6 +58,30 @@ theorem sortFields_unique (d : MsgD) (fs gs : Fields) (hn : fs.nums.Nodup)
   · intro a b c; exact legacyLess_trans d a.1 b.1 c.1
   · intro a; exact legacyLess_irrefl d a.1
 
+/-- sorting the entries of a map: a permutation of the input, strictly ascending in
+`GenericKeyOrder` when the entries are pairwise comparable (distinct canonical keys) -/
+theorem sortEntries_sorted_perm (kk : Kind) (vs : Vals) (hc : vs.toList.Pairwise (Cmp (entryLess kk))) :
+    (Vals.sortBy (entryLess kk) vs).toList.Perm vs.toList ∧
+    (Vals.sortBy (entryLess kk) vs).toList.Pairwise (fun a b => entryLess kk a b = true) := by
+  rw [Vals.toList_sortBy]
+  exact ⟨insSort_perm _ _, insSort_sorted (entryLess_trans kk) _ hc⟩
+
+/-- … and it is the only strictly ascending permutation -/
+theorem sortEntries_unique (kk : Kind) (vs ws : Vals) (hc : vs.toList.Pairwise (Cmp (entryLess kk)))
+    (hp : ws.toList.Perm vs.toList) (hs : ws.toList.Pairwise (fun a b => entryLess kk a b = true)) :
+    ws = Vals.sortBy (entryLess kk) vs := by
+  apply Vals.toList_inj
+  obtain ⟨hp', hs'⟩ := sortEntries_sorted_perm kk vs hc
+  exact sorted_perm_unique (entryLess_trans kk) (entryLess_irrefl kk) hs hs' (hp.trans hp'.symm)
+
+/-- entries with distinct canonical keys are comparable -/
+theorem distinctEntries_cmp_raw (kk : Kind) (a b : Val) (h : DistinctEntries kk a b) :
+    Cmp (entryLess kk) a b := by
+  obtain ⟨ea, eb, ka, kb, rfl, rfl, ha, hb, _, _, ca, cb, hne⟩ := h
+  rcases keyLess_total kk ka kb ca cb hne with h | h
+  · left; rw [entryLess_iff]; exact ⟨_, _, ka, kb, rfl, rfl, ha, hb, h⟩
+  · right; rw [entryLess_iff]; exact ⟨_, _, kb, ka, rfl, rfl, hb, ha, h⟩
+
 /-! ### same content up to the order of field lists and of map entries -/
 
 /-! `Pb.DistinctEntries kk a b` (Lemmas/MsgAlgDet.lean): `a`, `b` are entry messages with distinct field
@@ -106,6 +130,54 @@ inductive PermEntries (S : Schema) : Field → Kind → Vals → Vals → Prop
       as.toList.Perm bs.toList → as.toList.Pairwise (DistinctEntries kk) → PermEntries S f kk as bs
   | trans {f : Field} {kk : Kind} {as bs cs : Vals} :
       PermEntries S f kk as bs → PermEntries S f kk bs cs → PermEntries S f kk as cs
+end
+
+/-! the relation is reflexive and symmetric (transitivity is a constructor at the two list levels) -/
+
+theorem PermFields.refl (S : Schema) (d : MsgD) : ∀ fs : Fields, PermFields S d fs fs
+  | .nil => .nil
+  | .cons _ _ tl => .cons .same (PermFields.refl S d tl)
+
+theorem PermMsg.refl (S : Schema) (mi : Nat) : ∀ m : Msg, PermMsg S mi m m
+  | .mk fs _ => .mk (PermFields.refl S _ fs)
+
+theorem PermVals.refl (S : Schema) (f : Field) : ∀ vs : Vals, PermVals S f vs vs
+  | .nil => .nil
+  | .cons _ tl => .cons .same (PermVals.refl S f tl)
+
+theorem distinctEntries_symm {kk : Kind} {a b : Val} (h : DistinctEntries kk a b) : DistinctEntries kk b a := by
+  obtain ⟨ea, eb, ka, kb, h1, h2, h3, h4, h5, h6, h7, h8, h9⟩ := h
+  exact ⟨eb, ea, kb, ka, h2, h1, h4, h3, h6, h5, h8, h7, fun e => h9 e.symm⟩
+
+mutual
+theorem PermMsg.symm (S : Schema) : ∀ {mi : Nat} {a b : Msg}, PermMsg S mi a b → PermMsg S mi b a
+  | _, _, _, .mk h => .mk (PermFields.symm S h)
+theorem PermFields.symm (S : Schema) : ∀ {d : MsgD} {xs ys : Fields}, PermFields S d xs ys → PermFields S d ys xs
+  | _, _, _, .nil => .nil
+  | _, _, _, .cons hv h => .cons (PermFVal.symm S hv) (PermFields.symm S h)
+  | _, xs, ys, .reorder hp hn => by
+    refine .reorder hp.symm ?_
+    rw [Fields.nums_eq_map] at hn ⊢
+    exact ((hp.map (·.1)).nodup_iff).mp hn
+  | _, _, _, .trans h1 h2 => .trans (PermFields.symm S h2) (PermFields.symm S h1)
+theorem PermFVal.symm (S : Schema) : ∀ {d : MsgD} {n : Nat} {fx fy : FVal}, PermFVal S d n fx fy → PermFVal S d n fy fx
+  | _, _, _, _, .same => .same
+  | _, _, _, _, .one hf hv => .one hf (PermVal.symm S hv)
+  | _, _, _, _, .list hf hv => .list hf (PermVals.symm S hv)
+  | _, _, _, _, .map hf hc hk hv => .map hf hc hk (PermEntries.symm S hv)
+theorem PermVal.symm (S : Schema) : ∀ {f : Field} {a b : Val}, PermVal S f a b → PermVal S f b a
+  | _, _, _, .same => .same
+  | _, _, _, .msg h => .msg (PermMsg.symm S h)
+theorem PermVals.symm (S : Schema) : ∀ {f : Field} {as bs : Vals}, PermVals S f as bs → PermVals S f bs as
+  | _, _, _, .nil => .nil
+  | _, _, _, .cons hv h => .cons (PermVal.symm S hv) (PermVals.symm S h)
+theorem PermEntries.symm (S : Schema) : ∀ {f : Field} {kk : Kind} {as bs : Vals}, PermEntries S f kk as bs →
+    PermEntries S f kk bs as
+  | _, _, _, _, .nil => .nil
+  | _, _, _, _, .cons hv h => .cons (PermVal.symm S hv) (PermEntries.symm S h)
+  | _, _, _, _, .reorder hp hd =>
+    .reorder hp.symm ((hp.pairwise_iff (fun h => distinctEntries_symm h)).mp hd)
+  | _, _, _, _, .trans h1 h2 => .trans (PermEntries.symm S h2) (PermEntries.symm S h1)
 end
 
 /-! ### the main theorem -/
